@@ -169,3 +169,27 @@ Theorem C01_compute_sign_kernel_is_todays_source : forall A n1 n2 target,
   end.
 Proof. exact br_sign_names. Qed.
 Print Assumptions C01_compute_sign_kernel_is_todays_source.
+
+(* ---- the hypothesis [wf_alg A = true] of the table theorems above is PROVED for the algebras kingdon
+   constructs (Theory/WFDefault.v): every default-basis algebra (any signature over {1,-1,0}, any number of
+   generators, any start_index >= 0; false for start_index < 0: WFDefault.wf_default_neg_start), in
+   particular every Algebra(p,q,r); and for a custom basis the constructor's result is well-formed exactly
+   when the decidable admissibility condition [basis_ok] holds (one duplicate-free spelling per subset of
+   the generators, 2^d of them, ordered by grade, generator digits start..start+d-1) ---- *)
+From KV Require Import Theory.WFDefault.
+Theorem C01_default_algebras_wellformed : forall (sig : list Z) (start : Z) (graded : bool),
+  (forall s, In s sig -> s = 1 \/ s = -1 \/ s = 0) -> 0 <= start ->
+  wf_alg (mk_default sig start graded) = true.
+Proof. exact wf_default. Qed.
+Print Assumptions C01_default_algebras_wellformed.
+
+Theorem C01_pqr_algebras_wellformed : forall (p q r : nat) (graded : bool),
+  wf_alg (mk_default (sig_of_pqr p q r) (default_start (sig_of_pqr p q r)) graded) = true.
+Proof. exact wf_default_pqr. Qed.
+Print Assumptions C01_pqr_algebras_wellformed.
+
+Theorem C01_custom_algebras_wellformed_iff_admissible : forall (sig : list Z) (basis : list name) (graded : bool),
+  (forall A, mk_custom sig basis graded = Ok A -> wf_alg A = basis_ok sig basis) /\
+  ((exists A, mk_custom sig basis graded = Ok A /\ wf_alg A = true) <-> basis_ok sig basis = true).
+Proof. exact wf_custom_spec. Qed.
+Print Assumptions C01_custom_algebras_wellformed_iff_admissible.
